@@ -968,6 +968,9 @@ func (r *c17Runner) table(t c17Table, rows []anref.Row, g *c17Group, singles boo
 }
 
 func c17Run(c *core.Ctx) {
+	if c17SkipFamily("main") { // experimentation only
+		return
+	}
 	thorough := c.Thorough()
 	bounds := c17BoundsOf(thorough)
 	r := newC17Runner(c, thorough, "c17")
@@ -1041,7 +1044,7 @@ func c17Run(c *core.Ctx) {
 }
 
 func c17Replay(c *core.Ctx, payload json.RawMessage) {
-	if c17NestedReplay(c, payload) || c17TwinsReplay(c, payload) {
+	if c17NestedReplay(c, payload) || c17TwinsReplay(c, payload) || c17FamReplay(c, payload) {
 		return
 	}
 	var fam struct {
